@@ -11,10 +11,14 @@ structure RcptInfo where
   mbox : Nat
   dnum : Nat
   idn : Bool
+  /-- the domain is given in absolute form (root dot) -/
+  abs : Bool := false
 
 /-- spelling forms: (non-ASCII, convertible, spelling class of the domain = connection key, IDN domain)
 a `u1@d0.example`  u `U1@D0.EXAMPLE`  i `u1@пример0.example`  x its A-label spelling  I `U1@пример0.example`
-U `U1@d0.example`  X `U1@XN--….EXAMPLE`  l `ю1@d0.example`  c/d `é1@d0.example` composed/decomposed  C `É1@d0.example` -/
+U `U1@d0.example`  X `U1@XN--….EXAMPLE`  l `ю1@d0.example`  c/d `é1@d0.example` composed/decomposed  C `É1@d0.example`
+t `u1@d0.example.`  T `U1@D0.EXAMPLE.`  j `u1@пример0.example.`  y `u1@xn--….example.` (absolute domain: the root dot is part of
+the domain as spelled — a connection key of its own — and stays in the address on the wire and in the status key) -/
 def formInfo : String → Option (Bool × Bool × Nat × Bool)
   | "a" => some (false, false, 0, false)
   | "u" => some (false, false, 1, false)
@@ -27,6 +31,10 @@ def formInfo : String → Option (Bool × Bool × Nat × Bool)
   | "c" => some (true, false, 0, false)
   | "d" => some (true, false, 0, false)
   | "C" => some (true, false, 0, false)
+  | "t" => some (false, false, 5, false)
+  | "T" => some (false, false, 6, false)
+  | "j" => some (true, true, 7, true)
+  | "y" => some (false, false, 8, true)
   | _ => none
 
 def parseRcpt (s : String) : Option (Rcpt × RcptInfo) := do
@@ -42,22 +50,37 @@ def parseRcpt (s : String) : Option (Rcpt × RcptInfo) := do
     | "1" => some (true, false) | "0" => some (false, false) | "t" => some (false, false)
     | "4" => some (false, true) | "c" => some (false, true) | "r" => some (false, true) | "s" => some (false, true)
     | _ => none
-  pure (⟨id, dom * 8 + cls, na, cv, acc, fault⟩, ⟨id, mbox, dom, idn⟩)
+  pure (⟨id, dom * 16 + cls, na, cv, acc, fault⟩, ⟨id, mbox, dom, idn, cls ≥ 5⟩)
 
-/-- tx = `<rcpt>,<rcpt>,...:<df>`; df = `0` no DATA failure, `1` DATA fails everywhere,
-`d<digits>` DATA fails for the listed domain numbers. -/
+/-- tx = `<rcpt>,<rcpt>,...:<df>[:<buf>[:<oracle>]]`; df = `0` no DATA failure, `1` DATA fails everywhere,
+`d<digits>` DATA fails for the listed domain numbers; buf = `-` | `o<k>` (the message buffer can be opened k
+times, then `Open` fails) | `m<k>` (the reader handed out by the k-th `Open` fails mid-way) | `q` (the message is
+quarantined after the recipients were added); oracle = the connection keys (`+`-separated, `-` = none) whose
+goroutine met the failing `Open` / got the failing reader — decided by the Go scheduler, observed by the harness. -/
 def parseTx (s : String) : Option (Tx × List RcptInfo) :=
   match s.splitOn ":" with
-  | [rs, df] => do
+  | rs :: df :: more => do
     let rcpts ← (rs.splitOn ",").mapM parseRcpt
     let fail : Nat → Bool ←
       if df == "0" then some (fun _ => false)
       else if df == "1" then some (fun _ => true)
       else if df.startsWith "d" then
         let ds : List Nat := (df.toList.drop 1).filterMap (fun c => (String.singleton c).toNat?)
-        some (fun ck => ds.contains (ck / 8))
+        some (fun ck => ds.contains (ck / 16))
       else none
-    pure ({ rcpts := rcpts.map (·.1), dataFail := fail }, rcpts.map (·.2))
+    let buf := more.head?.getD "-"
+    let oracle : List Nat := match more.drop 1 with
+      | [o] => if o == "-" then [] else (o.splitOn "+").filterMap String.toNat?
+      | _ => []
+    if more.length > 2 then none
+    let hit : Nat → Bool := fun ck => oracle.contains ck
+    let tx : Tx ←
+      if buf == "-" then some { rcpts := rcpts.map (·.1), dataFail := fail }
+      else if buf == "q" then some { rcpts := rcpts.map (·.1), dataFail := fail, quarantine := true }
+      else if buf.startsWith "o" then some { rcpts := rcpts.map (·.1), dataFail := fail, openFail := hit }
+      else if buf.startsWith "m" then some { rcpts := rcpts.map (·.1), dataFail := fail, readFail := hit }
+      else none
+    pure (tx, rcpts.map (·.2))
   | _ => none
 
 def okStr (b : Bool) : String := if b then "o" else "f"
@@ -70,7 +93,7 @@ def sortStr (l : List String) : List String := l.foldr insertSorted []
 
 def showWire (infos : List RcptInfo) (id : Nat) : String :=
   match infos.find? (fun i => i.id == id) with
-  | some i => s!"{i.mbox}@{i.dnum}" ++ (if i.idn then "i" else "a")
+  | some i => s!"{i.mbox}@{i.dnum}" ++ (if i.idn then "i" else "a") ++ (if i.abs then "." else "")
   | none => s!"?{id}"
 
 def showObs (o : TxObs) (infos : List RcptInfo) : String :=
@@ -102,6 +125,34 @@ def tokName (k : Nat) : String :=
     | i + 1 => match pipeForms[i]? with | some c => String.singleton c | none => "?"
   (if n < 10 then "c" else "e") ++ toString n ++ f
 
+/-- `address.ForLookup` on a token: the mailbox number and the family of spellings (0 = ASCII case
+variants, 1 = IDN U-label/A-label variants, 2 = NFC/NFD/case variants of the non-ASCII local part) —
+the key of the per-address destination blocks. -/
+def lookupKey (k : Nat) : Nat :=
+  let f := k % 16
+  (k / 16) * 4 + (if f ≤ 3 then 0 else if f ≤ 7 then 1 else 2)
+
+/-- the nested pipeline of a `pipe` op: `<K><p>:<routed>:<inner spec>` -/
+structure Nest where
+  all : Bool
+  routed : List Nat
+  rw : List (Nat × List Nat)
+
+def parseNest (tok : String) : Option Nest :=
+  match tok.splitOn ":" with
+  | kp :: rt :: rest =>
+    if kp.length != 2 || !(kp.startsWith "R" || kp.startsWith "M") then none else
+    let inner := ":".intercalate rest
+    let rw : List (Nat × List Nat) := if inner == "-" then [] else (inner.splitOn ",").filterMap (fun p =>
+      match p.splitOn ":" with
+      | [x, ys] => do
+        let x ← parseTok x
+        let ys := (ys.splitOn "+").filterMap parseTok
+        if ys.isEmpty then none else pure (x, ys)
+      | _ => none)
+    some { all := rt == "*", routed := if rt == "*" then [] else ((rt.splitOn "+").filterMap parseTok).map lookupKey, rw := rw }
+  | _ => none
+
 def handle : List String → String
   | ["remote", utf8, txs] =>
     match (txs.splitOn ";").mapM parseTx with
@@ -116,9 +167,9 @@ def handle : List String → String
     match accepted with
     | some a => ",".intercalate ((lmtpStatuses a st).map (fun p => s!"{p.1}={okStr p.2}"))
     | none => "bad-op"
-  | "pipe" :: spec :: fails :: _place =>
+  | "pipe" :: spec :: fails :: rest =>
     -- spec: <client>:<eff>+<eff>,... ; the target reports one status per effective recipient in
-    -- AddRcpt order; the collector translates through OriginalRcpts (later entries overwrite).
+    -- AddRcpt order; the collector translates through the delivery's own table (later entries overwrite).
     let failIds := if fails == "-" then [] else (fails.splitOn ",").filterMap parseTok
     let parts := spec.splitOn ","
     let entries : List (Nat × List Nat) := parts.filterMap (fun p =>
@@ -128,16 +179,34 @@ def handle : List String → String
         let es := if es == "" then [] else (es.splitOn "+").filterMap parseTok
         pure (c, es)
       | _ => none)
-    -- OriginalRcpts as built by AddRcpt: for each rewritten effective address, last writer wins
-    let orig : List (Nat × Nat) := (entries.flatMap (fun e => e.2.map (fun x => (x, e.1)))).reverse
-    -- effective recipients in AddRcpt order (an unrewritten client recipient is its own effective
-    -- recipient); numbers below 10 are client-supplied addresses, also when they occur as a rewrite
+    let place := rest.head?.getD "g"
+    -- a nested pipeline behind the outer one; a `P…` token (OriginalRcpts table of a pipeline the message
+    -- passed earlier) is deliberately NOT an input of the model: it takes no part in the translation
+    let nest := (rest.drop 1).findSome? parseNest
+    -- the table of the outer delivery as built by AddRcpt: for each rewritten effective address, last writer wins
+    let origO : List (Nat × Nat) := (entries.flatMap (fun e => e.2.map (fun x => (x, e.1)))).reverse
+    -- (client, outer effective recipient) in AddRcpt order (an unrewritten client recipient is its own
+    -- effective recipient); numbers below 10 are client-supplied addresses, also when they occur as a rewrite
     -- result; a key is an address STRING (another spelling of the same mailbox is another key), the
     -- same client token may occur several times (the client sent the address twice)
-    let effs : List Nat := entries.flatMap (fun e => if e.2.isEmpty then [e.1] else e.2)
-    let sts := effs.map (fun x =>
-      let k := translate orig x          -- statusCollector.SetStatus: ONE look-up in OriginalRcpts
-      tokName k ++ "=" ++ okStr (!failIds.contains x))
+    let paths : List (Nat × Nat) := entries.flatMap (fun e => (if e.2.isEmpty then [e.1] else e.2).map (fun x => (e.1, x)))
+    -- the destination block is chosen before its own modifiers run: placement r = by the client-supplied address
+    let routed (p : Nat × Nat) : Bool := match nest with
+      | none => false
+      | some n => n.all || n.routed.contains (lookupKey (if place == "r" then p.1 else p.2))
+    let innerEffs (x : Nat) : List Nat := match nest with
+      | none => [x]
+      | some n => match n.rw.find? (fun e => e.1 == x) with
+        | some e => e.2
+        | none => [x]
+    -- the table of the nested delivery: what its AddRcpt calls recorded
+    let origI : List (Nat × Nat) :=
+      (paths.flatMap (fun p => if routed p then (innerEffs p.2).filterMap (fun y => if y != p.2 then some (y, p.2) else none) else [])).reverse
+    let sts := paths.flatMap (fun p =>
+      if routed p then
+        (innerEffs p.2).map (fun y => tokName (translateNested origO origI y) ++ "=" ++ okStr (!failIds.contains y))
+      else
+        [tokName (translate origO p.2) ++ "=" ++ okStr (!failIds.contains p.2)])   -- statusCollector.SetStatus: ONE look-up
     ",".intercalate (sortStr sts)
   | _ => "bad-op"
 
